@@ -168,6 +168,65 @@ def directed_scenarios():
     return out
 
 
+RAW_UNDEF_MOD = """from twosigma.memento import memento_function
+from . import aux, aux2
+
+
+def helper(x):
+    return [x, aux.late if hasattr(aux, "late") else None, aux2.late if hasattr(aux2, "late") else None]
+
+
+@memento_function(cluster="vp")
+def m1(x):
+    return helper(x)
+"""
+RAW_UNDEF_CHILD = """import json, sys
+sys.path.insert(0, sys.argv[1])
+import importlib
+events = json.loads(sys.argv[2])
+pre = json.loads(sys.argv[3])
+import vpk.aux as aux, vpk.aux2 as aux2
+for where, name, val in pre:
+    setattr({"aux": aux, "aux2": aux2}[where], name, val)
+from vpk import mod
+out = [mod.m1.version()]
+for where, name, val in events:
+    setattr({"aux": aux, "aux2": aux2}[where], name, val)
+    out.append(mod.m1.version())
+print(json.dumps(out))
+"""
+
+
+def undefined_attribute_scenarios(root):
+    """two references to attributes of the same name that do not exist yet, on two modules (`aux.late`, `aux2.late`): defining
+    either of them is "defining a previously undefined symbol". Returns a list of failures."""
+    import subprocess
+    sub = tempfile.mkdtemp(prefix="undef_", dir=root)
+    d = os.path.join(sub, "vpk")
+    os.makedirs(d)
+    for fn, src in (("__init__.py", ""), ("aux.py", ""), ("aux2.py", ""), ("mod.py", RAW_UNDEF_MOD)):
+        open(os.path.join(d, fn), "w").write(src)
+    env = dict(os.environ, PYTHONPATH=common.REPO)
+
+    def run(events, pre):
+        p = subprocess.run([common.PY, "-B", "-c", RAW_UNDEF_CHILD, sub, json.dumps(events), json.dumps(pre)], stdout=subprocess.PIPE,
+                           stderr=subprocess.PIPE, text=True, env=env, timeout=120)
+        if p.returncode != 0:
+            return ["err:" + p.stderr.strip().split("\n")[-1][:200]]
+        return json.loads(p.stdout.strip().split("\n")[-1])
+    fails = []
+    for events in ([["aux", "late", 5]], [["aux2", "late", 5]], [["aux2", "late", 5], ["aux", "late", 6]], [["aux", "late", 5], ["aux2", "late", 6]]):
+        got = run(events, [])
+        for i in range(len(events) + 1):
+            fresh = run([], events[:i])[0]
+            if i >= len(got) or got[i] != fresh:
+                fails.append(dict(clause="version-equals-fresh", fn="m1", event=["define-undefined-attribute"] + events[i - 1] if i else ["initial"],
+                                  events=events[:i], in_process=got[i] if i < len(got) else got[-1], fresh=fresh))
+                break
+    shutil.rmtree(sub, ignore_errors=True)
+    return fails
+
+
 def fresh_versions(prog, root, cache):
     key = hashlib.sha1(json.dumps(vprogs.render_modules(prog, "vpk"), sort_keys=True).encode()).hexdigest()
     if key not in cache:
@@ -349,6 +408,14 @@ def model_replay(prog, marks, events, out):
 
 
 def main(chk, replay=None):
+    if replay is not None and replay.get("raw_undefined"):
+        root = tempfile.mkdtemp(prefix="c13r_")
+        try:
+            fails = undefined_attribute_scenarios(root)
+            print(json.dumps(dict(still_fails=bool(fails), observed=fails[:2]), default=str))
+            return 1 if fails else 0
+        finally:
+            shutil.rmtree(root, ignore_errors=True)
     if replay is not None:
         root = tempfile.mkdtemp(prefix="c13r_")
         try:
@@ -397,6 +464,14 @@ def main(chk, replay=None):
             shutil.rmtree(root, ignore_errors=True)
         return item["program"], evs, fails, mism, npairs
 
+    ufails = undefined_attribute_scenarios(chk.tmpdir())
+    chk.case(["undefined-attributes-of-equal-name"], nontrivial=True, sample=dict(fails=ufails[:1]))
+    chk.count("event:define-undefined-attribute", 6)
+    if ufails:
+        f = ufails[0]
+        chk.violation({"what": "after defining %s the in-process version of m1 is %s but a fresh process computes %s" % (
+            f["events"], f["in_process"], f["fresh"]), "class": {"clause": f["clause"], "event": "define-undefined-attribute", "object": "function"},
+            "raw_undefined": True, "source": RAW_UNDEF_MOD, "observed": ufails[:2]})
     corpus = json.load(open(os.path.join(os.path.dirname(os.path.abspath(__file__)), "corpus_c13.json")))
     corpus += directed_scenarios()
     seeds = [rng.randrange(1 << 30) for _ in range(nprog)]
